@@ -104,6 +104,7 @@ var (
 	vpNtlmErr     error
 	vpAuthDB      map[string]string
 	vpAuthSlowFor string
+	vpAuthFailFirst int // the first so many calls to the authentication service fail (e.g. credentials gRPC cannot marshal)
 	vpBasicUser   string
 	vpBasicPass   string
 	vpBasicOK     bool
@@ -116,7 +117,7 @@ func vpResetWeb() {
 	vpAuthReqUser, vpAuthReqPass, vpNtlmReqMsg, vpNtlmReqSess = "", "", "", ""
 	vpAuthRes, vpAuthErr, vpNtlmRes, vpNtlmErr = nil, nil, nil, nil
 	vpBasicUser, vpBasicPass, vpBasicOK = "", "", false
-	vpAuthDB, vpAuthSlowFor = nil, ""
+	vpAuthDB, vpAuthSlowFor, vpAuthFailFirst = nil, "", 0
 	vpQueryVals = nil
 	vpFormVals = nil
 	vpMetricLabels = nil
@@ -143,6 +144,9 @@ type vpAuthClient struct{}
 func (vpAuthClient) Authenticate(ctx context.Context, in *auth.UserPass, opts ...grpc.CallOption) (*auth.AuthResponse, error) {
 	vpAuthCalls++
 	vpAuthReqUser, vpAuthReqPass = in.Username, in.Password
+	if vpAuthCalls <= vpAuthFailFirst {
+		return nil, errors.New("vp: rpc error: the request could not be marshalled")
+	}
 	if vpAuthDB != nil {
 		// a backend with accounts: the verdict belongs to the credentials of THIS call; a slow account
 		// (pam_faildelay, a remote directory) lets the gateway serve other requests meanwhile
